@@ -373,7 +373,10 @@ def _structured_graph(rng, emax, blocks=None, joint=None):
 
 def _structured_case(rng, emax=14, blocks=None, joint=None, embed=None):
     vs, es = _structured_graph(rng, emax, blocks, joint)
-    lab = rng.sample(STRUCT_LABELS if rng.random() < 0.5 else range(0, 14), len(vs) + 3)
+    pool = STRUCT_LABELS if rng.random() < 0.5 else range(0, 20)
+    if len(pool) < len(vs) + 3:
+        pool = range(0, len(vs) + 6)
+    lab = rng.sample(pool, len(vs) + 3)
     m = dict(zip(vs, lab))
     motif = [m[v] for v in vs]
     edges = [[m[a], m[b]] if rng.random() < 0.5 else [m[b], m[a]] for a, b in es]
